@@ -1,6 +1,7 @@
 package drivers
 
 import (
+	"encoding/json"
 	"bytes"
 	"context"
 	"flag"
@@ -34,7 +35,7 @@ func XferSpecial(args []string) {
 	shard := fs.Int("shard", 0, "shard")
 	shards := fs.Int("shards", 1, "shards")
 	large := fs.Bool("large", true, "include the files beyond 4 GiB")
-	groups := fs.String("groups", "prepop,manychunks,manyfiles,large", "comma separated: prepop manychunks manyfiles large rechunk symlink onestream geometry largemeta largetorn")
+	groups := fs.String("groups", "prepop,manychunks,manyfiles,large", "comma separated: prepop manychunks manyfiles large rechunk symlink onestream geometry largemeta largetorn resend")
 	fs.Parse(args)
 	installHooks()
 	res := &Result{Extra: map[string]any{}}
@@ -62,6 +63,9 @@ func XferSpecial(args []string) {
 	}
 	if on("longlag") {
 		specialLongLag(res, outcomes, base, *seed, mine)
+	}
+	if on("resend") {
+		specialResend(res, outcomes, base, *seed, mine)
 	}
 	if on("multiselect") {
 		specialMultiSelect(res, outcomes, base, *seed, mine)
@@ -528,13 +532,58 @@ func specialRechunk(res *Result, outcomes map[string]int, base string, seed int6
 
 // specialSymlink: symbolic links to regular files inside the hosted tree are listed as files; what
 // arrives must be the target's bytes at the target's length.
+// specialResend: a host scans once and serves every receiver from that one manifest value; a transfer must leave it as
+// it was (same entries, same order, same counts), and the second receiver must get the same tree as the first.
+func specialResend(res *Result, outcomes map[string]int, base string, seed int64, mine func() bool) {
+	tree := []xfer.FileSpec{{Rel: "docs/a.txt", Size: 300}, {Rel: "docs/deep/b.bin", Size: 70}, {Rel: "docs/empty-dir", Size: -1}, {Rel: "img/c.bin", Size: 5000},
+		{Rel: "top.bin", Size: 10}, {Rel: "zero.dat", Size: 0}, {Rel: "lone-dir", Size: -1}}
+	for ci, chunk := range []uint32{64, 4096} {
+		for _, sp := range []bool{false, true} {
+			for _, resume := range []bool{false, true} {
+				if !mine() {
+					continue
+				}
+				dir := filepath.Join(base, fmt.Sprintf("rs%d_%v_%v", ci, sp, resume))
+				src := filepath.Join(dir, "src", "tree")
+				if err := xfer.MakeTree(src, tree, seed+int64(ci)); err != nil {
+					panic(err)
+				}
+				m, _, err := xfer.Scan(src, sp)
+				if err != nil {
+					res.AddDrift(map[string]any{"why": "scan: " + err.Error()})
+					continue
+				}
+				before, _ := json.Marshal(m)
+				cfg := xfer.Config{Transport: []string{"mock", "vquic"}[ci%2], Conns: 1, Streams: 2, ChunkSize: chunk, Resume: resume, ScanPaths: sp, NoRootDir: sp, Seed: seed, Watchdog: 8 * time.Second, Manifest: &m}
+				for k := 1; k <= 2; k++ {
+					o, err := xfer.Run(cfg, src, filepath.Join(dir, fmt.Sprintf("out%d", k)))
+					res.Behaviours++
+					res.Distinct++
+					judgeHealthy(res, outcomes, fmt.Sprintf("receiver %d of the same manifest", k), "one-manifest-two-receivers", cfg, o, err)
+					after, _ := json.Marshal(m)
+					if string(after) != string(before) {
+						outcomes["manifest changed by a transfer"]++
+						res.AddViolation(map[string]any{"property": "C13", "kind": "manifest_changed_by_a_transfer", "after_receiver": k},
+							map[string]any{"cfg": cfg, "manifest_before": json.RawMessage(before), "manifest_after": json.RawMessage(after)})
+						break
+					}
+				}
+			}
+		}
+	}
+}
+
 func specialSymlink(res *Result, outcomes map[string]int, base string, seed int64, mine func() bool) {
 	trees := [][]xfer.FileSpec{
 		{{Rel: "real/data.bin", Size: 5000}, {Rel: "current/latest.bin", Link: "../real/data.bin"}, {Rel: "top.lnk", Link: "real/data.bin"}, {Rel: "z.bin", Size: 70}},
 		{{Rel: "real/data.bin", Size: 5000}, {Rel: "real/tiny", Size: 3}, {Rel: "current/latest.bin", Link: "../real/data.bin"},
 			{Rel: "top.lnk", Link: "real/tiny"}, {Rel: "real/a-rather-long-link-name-for-a-tiny-target.lnk", Link: "tiny"}, {Rel: "z.bin", Size: 70}},
 	}
-	for ci, chunk := range []uint32{64, 4096, 64, 4096} {
+	// entries that are not listed (a link that leads nowhere, a named pipe, a link to a directory) next to entries that
+	// sort after them: files, a subtree, an empty directory, a zero-length file
+	trees = append(trees, []xfer.FileSpec{{Rel: "mid/a-dangling.lnk", Link: "nowhere"}, {Rel: "mid/a-pipe", Fifo: true}, {Rel: "mid/b.bin", Size: 300}, {Rel: "mid/sub/c.bin", Size: 70},
+		{Rel: "mid/zz-empty", Size: -1}, {Rel: "mid/zero.dat", Size: 0}, {Rel: "a-dirlink", Link: "mid"}, {Rel: "b-after.bin", Size: 10}, {Rel: "real/data.bin", Size: 900}, {Rel: "z-last.lnk", Link: "real/data.bin"}})
+	for ci, chunk := range []uint32{64, 4096, 64, 4096, 64, 4096} {
 		tree := trees[ci/2]
 		for _, sp := range []bool{false, true} {
 			for _, resume := range []bool{false, true} {
